@@ -175,6 +175,14 @@ Definition S_dba : Prop := forall cs ncs dom infinity maxd orc0 sched,
 Theorem dba_selects_in_domain : S_dba.
 Proof. exact P_SelectDba3.dba_selects_in_domain_wf. Qed.
 
+(* the handler-level model M_Dba.v replays postponed messages one level deep (deeper = EvRaise n 9, outside
+   the model); on a well-formed problem that limit is never reached, for every schedule, also after
+   finished() - so the model is faithful on every run the theorem above speaks about *)
+Theorem dba_nesting_limit_unreached : forall cs ncs dom infinity maxd orc0 sched n,
+  M_Dba.wf_problem cs ncs ->
+  ~ In (M_Dba.EvRaise n 9) (snd (run (M_Dba.dba_proto cs ncs dom infinity maxd orc0) sched)).
+Proof. exact P_SelectDba3.dba_nesting_limit_unreached. Qed.
+
 (* non-vacuity of S_dba: a well-formed instance whose computations select and then raise IndexError
    (infinity 0), and one whose run goes on after every computation called finished() twice *)
 Example dba_c10_nonvacuous :
